@@ -300,6 +300,11 @@ func run(c *h.Ctx, cs Case) {
 				{Op: "like", Sel: sel.Sel{{Kind: "field", Name: cs.Missing, Opt: opt}}, Pat: "*"},
 				{Op: "all", Sel: sel.Sel{{Kind: "field", Name: cs.Missing, Opt: opt}}, Sub: []pol.Stmt{{Op: "==", Sel: sel.Sel{{Kind: "id"}}, Lit: &one}}},
 				{Op: "any", Sel: sel.Sel{{Kind: "field", Name: cs.Missing, Opt: opt}}, Sub: []pol.Stmt{{Op: "==", Sel: sel.Sel{{Kind: "id"}}, Lit: &one}}},
+				// the same statement under a negation / a one-operand connective is still a statement over missing data
+				{Op: "not", Sub: []pol.Stmt{{Op: "==", Sel: sel.Sel{{Kind: "field", Name: cs.Missing, Opt: opt}}, Lit: &one}}},
+				{Op: "and", Sub: []pol.Stmt{{Op: "<", Sel: sel.Sel{{Kind: "field", Name: cs.Missing, Opt: opt}}, Lit: &one}}},
+				{Op: "or", Sub: []pol.Stmt{{Op: "==", Sel: sel.Sel{{Kind: "field", Name: cs.Missing, Opt: opt}}, Lit: &one}}},
+				{Op: "not", Sub: []pol.Stmt{{Op: "not", Sub: []pol.Stmt{{Op: "like", Sel: sel.Sel{{Kind: "field", Name: cs.Missing, Opt: opt}}, Pat: "*"}}}}},
 			} {
 				more := append(append(pol.Policy{}, cs.Pol...), mk)
 				r1, ok := eval(c, more, data, cs.ViaCtor)
@@ -369,3 +374,220 @@ func draw(t *rapid.T) Case {
 var prop = h.Define(P, "match", draw, run)
 
 func TestMatch(t *testing.T) { prop.Check(t) }
+
+// ---------- four-valued algebra: exhaustive small expression trees ----------
+
+// Leaves with a known status on the fixed datum {a:1, l:[1,2]}:
+// T true, F false, N required data missing, O optional data missing.
+func leaf(kind string) pol.Stmt {
+	one, two := val.Int(1), val.Int(2)
+	switch kind {
+	case "T":
+		return pol.Stmt{Op: "==", Sel: sel.Sel{{Kind: "field", Name: "a"}}, Lit: &one}
+	case "F":
+		return pol.Stmt{Op: "==", Sel: sel.Sel{{Kind: "field", Name: "a"}}, Lit: &two}
+	case "N":
+		return pol.Stmt{Op: "==", Sel: sel.Sel{{Kind: "field", Name: "zz"}}, Lit: &one}
+	default:
+		return pol.Stmt{Op: "==", Sel: sel.Sel{{Kind: "field", Name: "zz", Opt: true}}, Lit: &one}
+	}
+}
+
+// elemLeaf: statements relative to a list element (1 or 2).
+func elemLeaf(kind string) pol.Stmt {
+	one := val.Int(1)
+	switch kind {
+	case "T1": // true on element 1, false on element 2
+		return pol.Stmt{Op: "==", Sel: sel.Sel{{Kind: "id"}}, Lit: &one}
+	case "TT":
+		return pol.Stmt{Op: ">=", Sel: sel.Sel{{Kind: "id"}}, Lit: &one}
+	case "N":
+		return pol.Stmt{Op: "==", Sel: sel.Sel{{Kind: "field", Name: "x"}}, Lit: &one}
+	default: // O
+		return pol.Stmt{Op: "==", Sel: sel.Sel{{Kind: "field", Name: "x", Opt: true}}, Lit: &one}
+	}
+}
+
+type AlgCase struct {
+	Expr  pol.Stmt  `json:"expr"`
+	Extra *pol.Stmt `json:"extra,omitempty"`
+}
+
+var algData = val.Map(val.E("a", val.Int(1)), val.E("l", val.List(val.Int(1), val.Int(2))), val.E("m", val.List(val.Int(2), val.Map(val.E("x", val.Int(1))), val.Int(1))))
+
+func reverseOperands(s pol.Stmt) pol.Stmt {
+	out := s
+	if len(s.Sub) > 0 {
+		out.Sub = make([]pol.Stmt, len(s.Sub))
+		for i, c := range s.Sub {
+			out.Sub[i] = reverseOperands(c)
+		}
+		if s.Op == "and" || s.Op == "or" {
+			for i, j := 0, len(out.Sub)-1; i < j; i, j = i+1, j-1 {
+				out.Sub[i], out.Sub[j] = out.Sub[j], out.Sub[i]
+			}
+		}
+	}
+	return out
+}
+
+func runAlg(c *h.Ctx, ac AlgCase) {
+	data := algData.Node()
+	base, ok := eval(c, pol.Policy{ac.Expr}, data, false)
+	if !ok {
+		return
+	}
+	if base.match && !base.partial {
+		c.Fail("C11/match-implies-partial", "Match true but PartialMatch false\npolicy %s", show(pol.Policy{ac.Expr}))
+	}
+	rev := reverseOperands(ac.Expr)
+	if r2, ok := eval(c, pol.Policy{rev}, data, false); ok && r2 != base {
+		c.Fail("C11/order/operands/algebra", "outcome depends on operand order: %+v vs reversed %+v\npolicy   %s\nreversed %s", base, r2, show(pol.Policy{ac.Expr}), show(pol.Policy{rev}))
+	}
+	// element order under every quantifier over .l / .m
+	for _, name := range []string{"l", "m"} {
+		lst, _ := algData.Get(name)
+		rl := val.V{K: "list"}
+		for i := len(lst.L) - 1; i >= 0; i-- {
+			rl.L = append(rl.L, lst.L[i])
+		}
+		alt := val.V{K: "map"}
+		for _, e := range algData.M {
+			if e.K == name {
+				alt.M = append(alt.M, val.KV{K: name, V: rl})
+			} else {
+				alt.M = append(alt.M, e)
+			}
+		}
+		if r3, ok := eval(c, pol.Policy{ac.Expr}, alt.Node(), false); ok && r3 != base {
+			c.Fail("C11/order/elements/algebra", "outcome depends on the order of the elements of .%s: %+v vs reversed %+v\npolicy %s", name, base, r3, show(pol.Policy{ac.Expr}))
+		}
+	}
+	if ac.Extra != nil {
+		var ands []path
+		collectAnds(ac.Expr, nil, &ands)
+		for ai, pth := range ands {
+			more := addOperand(ac.Expr, pth, *ac.Extra, ai)
+			if r1, ok := eval(c, pol.Policy{more}, data, false); ok {
+				if !base.match && r1.match {
+					c.Fail("C11/monotone/and-operand/match", "adding an operand to an and turned a failing Match into a passing one\nbefore %s\nafter  %s", show(pol.Policy{ac.Expr}), show(pol.Policy{more}))
+				}
+				if !base.partial && r1.partial {
+					c.Fail("C11/monotone/and-operand/partial", "adding an operand to an and turned a failing PartialMatch into a passing one\nbefore %s\nafter  %s", show(pol.Policy{ac.Expr}), show(pol.Policy{more}))
+				}
+			}
+		}
+	}
+	// concatenation with each leaf
+	for _, k := range []string{"T", "F", "N", "O"} {
+		q := pol.Policy{leaf(k)}
+		rq, ok1 := eval(c, q, data, false)
+		rc, ok2 := eval(c, pol.Policy{ac.Expr, q[0]}, data, false)
+		if ok1 && ok2 && (rc.match != (base.match && rq.match) || rc.partial != (base.partial && rq.partial)) {
+			c.Fail("C11/concat/algebra", "Match/PartialMatch of p++q is not the conjunction: p=%+v q=%+v p++q=%+v\np %s\nq %s", base, rq, rc, show(pol.Policy{ac.Expr}), show(q))
+		}
+	}
+}
+
+var algProp = h.Define(P, "algebra", func(t *rapid.T) AlgCase {
+	var gen func(d int) pol.Stmt
+	gen = func(d int) pol.Stmt {
+		if d == 0 || rapid.IntRange(0, 3).Draw(t, "leaf") == 0 {
+			return leaf(rapid.SampledFrom([]string{"T", "F", "N", "O"}).Draw(t, "lk"))
+		}
+		switch rapid.IntRange(0, 4).Draw(t, "ek") {
+		case 0:
+			return pol.Stmt{Op: "not", Sub: []pol.Stmt{gen(d - 1)}}
+		case 1, 2:
+			n := rapid.IntRange(0, 3).Draw(t, "n")
+			s := pol.Stmt{Op: rapid.SampledFrom([]string{"and", "or"}).Draw(t, "conn")}
+			for i := 0; i < n; i++ {
+				s.Sub = append(s.Sub, gen(d-1))
+			}
+			return s
+		default:
+			var inner pol.Stmt
+			if rapid.Bool().Draw(t, "innerleaf") {
+				inner = elemLeaf(rapid.SampledFrom([]string{"T1", "TT", "N", "O"}).Draw(t, "el"))
+			} else {
+				inner = pol.Stmt{Op: rapid.SampledFrom([]string{"not", "and", "or"}).Draw(t, "ic"), Sub: []pol.Stmt{elemLeaf(rapid.SampledFrom([]string{"T1", "TT", "N", "O"}).Draw(t, "el1"))}}
+				if inner.Op != "not" {
+					inner.Sub = append(inner.Sub, elemLeaf(rapid.SampledFrom([]string{"T1", "TT", "N", "O"}).Draw(t, "el2")))
+				}
+			}
+			return pol.Stmt{Op: rapid.SampledFrom([]string{"all", "any"}).Draw(t, "q"), Sel: sel.Sel{{Kind: "field", Name: rapid.SampledFrom([]string{"l", "m"}).Draw(t, "ql")}}, Sub: []pol.Stmt{inner}}
+		}
+	}
+	ac := AlgCase{Expr: gen(4)}
+	if rapid.Bool().Draw(t, "extra") {
+		e := gen(1)
+		ac.Extra = &e
+	}
+	return ac
+}, runAlg)
+
+func TestAlgebra(t *testing.T) { algProp.Check(t) }
+
+// TestAlgebraExhaustive: every expression of depth <= 2 over the four leaves
+// with not / binary and / binary or, every quantifier form, each with every
+// leaf as extra operand.
+func TestAlgebraExhaustive(t *testing.T) {
+	kinds := []string{"T", "F", "N", "O"}
+	var level [][]pol.Stmt
+	var l0 []pol.Stmt
+	for _, k := range kinds {
+		l0 = append(l0, leaf(k))
+	}
+	level = append(level, l0)
+	for d := 1; d <= 2; d++ {
+		prev := []pol.Stmt{}
+		for _, l := range level {
+			prev = append(prev, l...)
+		}
+		var cur []pol.Stmt
+		for _, x := range prev {
+			cur = append(cur, pol.Stmt{Op: "not", Sub: []pol.Stmt{x}})
+		}
+		for _, op := range []string{"and", "or"} {
+			for _, x := range prev {
+				for _, y := range prev {
+					cur = append(cur, pol.Stmt{Op: op, Sub: []pol.Stmt{x, y}})
+				}
+			}
+		}
+		level = append(level, cur)
+	}
+	n := 0
+	for _, l := range level {
+		for _, e := range l {
+			for _, k := range kinds {
+				x := leaf(k)
+				algProp.One(t, AlgCase{Expr: e, Extra: &x})
+				n++
+			}
+		}
+	}
+	// quantifiers: all/any x inner in {leaf, not leaf, and/or of two leaves} x wrappers {plain, not}
+	els := []string{"T1", "TT", "N", "O"}
+	for _, q := range []string{"all", "any"} {
+		for _, ln := range []string{"l", "m"} {
+			var inners []pol.Stmt
+			for _, a := range els {
+				inners = append(inners, elemLeaf(a), pol.Stmt{Op: "not", Sub: []pol.Stmt{elemLeaf(a)}})
+				for _, b := range els {
+					inners = append(inners, pol.Stmt{Op: "and", Sub: []pol.Stmt{elemLeaf(a), elemLeaf(b)}}, pol.Stmt{Op: "or", Sub: []pol.Stmt{elemLeaf(a), elemLeaf(b)}})
+				}
+			}
+			for _, in := range inners {
+				qs := pol.Stmt{Op: q, Sel: sel.Sel{{Kind: "field", Name: ln}}, Sub: []pol.Stmt{in}}
+				for _, w := range []pol.Stmt{qs, {Op: "not", Sub: []pol.Stmt{qs}}, {Op: "or", Sub: []pol.Stmt{qs, leaf("F")}}, {Op: "and", Sub: []pol.Stmt{leaf("O"), qs}}} {
+					algProp.One(t, AlgCase{Expr: w})
+					n++
+				}
+			}
+		}
+	}
+	P.AddDistinct(n)
+	P.SetExtra("algebra_expressions", n)
+	P.Sample(map[string]any{"algebra": "all not/and/or expressions of depth <= 2 over leaves T,F,N,O x extra operand; quantifier forms", "count": n})
+}
